@@ -156,8 +156,8 @@ class _Jac(LinearOperator):
         # otherwise, reevaluate by replacing the parameters with the new tensor params
         else:
             with torch.enable_grad(), self.fcn.useobjparams(self.objparams):
-                self.__update_params()
-                yparam, yout = _eval_fcn(self.fcn, self.params, self.idx)
+                params = self.__current_params()
+                yparam, yout = _eval_fcn(self.fcn, params, self.idx)
                 v = torch.ones_like(yout).to(yout.device).requires_grad_()  # (*nout)
                 dfdy = _vjp(yout, yparam, v, create_graph=True)  # (*nin)
 
@@ -183,8 +183,8 @@ class _Jac(LinearOperator):
             yparam = self.yparam_in
         else:
             with torch.enable_grad(), self.fcn.useobjparams(self.objparams):
-                self.__update_params()
-                yparam, yout = _eval_fcn(self.fcn, self.params, self.idx)
+                params = self.__current_params()
+                yparam, yout = _eval_fcn(self.fcn, params, self.idx)
 
         gout1 = gout.reshape(-1, self.nout)  # (nbatch, nout)
         nbatch = gout1.shape[0]
@@ -204,8 +204,10 @@ class _Jac(LinearOperator):
         return [id(param) for param in self.params_tensor] == self.id_params_tensor and \
                [id(param) for param in self.objparams] == self.id_objparams_tensor
 
-    def __update_params(self):
-        self.params = self.param_sep.reconstruct_params(self.params_tensor)
+    def __current_params(self):
+        # the parameters with the (substituted) tensors the operator holds now;
+        # not stored: substituted tensors must not outlive the substitution
+        return self.param_sep.reconstruct_params(self.params_tensor)
 
 def _eval_fcn(fcn, params, idx):
     # evaluate fcn with its idx-th argument replaced by a fresh view of it, so
